@@ -76,6 +76,8 @@ seq_t dtw_warping_paths{{ suffix }}{{ suffix2 }}(seq_t *wps,
                 return sqrt(p.max_dist);
             }
         }
+        // Rounding (sqrt followed by pow) must not prune the Euclidean alignment itself
+        p.max_dist *= (1 + 1e-12);
     }
     {%- endif %}
 
